@@ -18,7 +18,8 @@
 
    Where today's code violates the property there are two variants selected by [flags]
    (false = as found, true = minimal repair).  *)
-From Coq Require Import List Arith ZArith Bool String Ascii.
+From Coq Require Import String Ascii.
+From Coq Require Import List Arith ZArith Bool.
 Import ListNotations.
 Open Scope nat_scope.
 
@@ -135,10 +136,11 @@ Record flags := {
   f_del_bonds : bool;   (* delete_atom_by_index drops the bonds of the deleted atom *)
   f_hash : bool;        (* __hash__ built from what __eq__ compares *)
   f_conect_num : bool;  (* CONECT numbers are the numbers written in the ATOM records *)
-  f_conect_del : bool   (* CONECT continuation drops the three partners it printed, not four *)
+  f_conect_del : bool;  (* CONECT continuation drops the three partners it printed, not four *)
+  f_h5_full : bool      (* hypothetical: the HDF5 JSON also holds serial, chain_id, bond type and order *)
 }.
-Definition flags_cur : flags := Build_flags false false false false false false false false false false.
-Definition flags_fix : flags := Build_flags true true true true true true true true true true.
+Definition flags_cur : flags := Build_flags false false false false false false false false false false false.
+Definition flags_fix : flags := Build_flags true true true true true true true true true true true.
 
 (* ------------------------------------------------------------------ Topology methods (heap level) *)
 (* add_chain(chain_id) *)
